@@ -36,3 +36,10 @@ Definition compiled_objects (srcs : list usrc) (size : nat) : list uobj :=
 (* backends.py:950-963, the code as it stands *)
 Definition extracted_objects (srcs : list usrc) (size : nat) : list uobj :=
   map UUnity (seq 0 (chunks (length srcs) size)).
+
+(* after pending/C04-unity-extracted-objects.diff: the list is de-duplicated
+   (dict.fromkeys), assembly / LLVM IR sources keep their own object, the rest is chunked *)
+Definition extracted_objects_fixed (srcs : list usrc) (size : nat) : list uobj :=
+  let d := udedup srcs [] in
+  map (fun s => USep (fst s)) (filter (fun s => negb (snd s)) d) ++
+  map UUnity (seq 0 (chunks (length (filter snd d)) size)).
